@@ -266,6 +266,48 @@ def reuse_case():
     return None
 
 
+def failed_parse_case():
+    """a document that fails to parse (cut short at every element boundary) leaves nothing behind: the complete document parsed
+    afterwards - without asking for replacement - yields the declared definition, and a definition known before is still the known one"""
+    from txdbus import interface, introspection
+    name = 'org.verif.Cut'
+    decl = interface.DBusInterface(name, interface.Method('A', arguments='s'), interface.Method('B', returns='ai'), interface.Signal('S', 'u'),
+                                   interface.Property('P', 'i', writeable=True), noRegister=True)
+    xml = introspection.generateIntrospectionXML('/obj', {'/obj': FakeObject([decl])})
+    cuts = [i for i in range(len(xml)) if xml.startswith('<', i) and i > xml.index('<interface')]
+    for replace_first in (False, True):
+        for c in cuts:
+            interface.DBusInterface.knownInterfaces.pop(name, None)
+            try:
+                try:
+                    introspection.getInterfacesFromXML(xml[:c], replace_first)
+                    continue                        # a cut that still parses is not this case
+                except Exception:
+                    pass
+                got = [i for i in introspection.getInterfacesFromXML(xml, False) if i.name == name]
+                if len(got) != 1 or sorted(got[0].methods) != ['A', 'B'] or sorted(got[0].signals) != ['S'] or sorted(got[0].properties) != ['P']:
+                    return ('a document cut after %d of %d characters failed to parse; the COMPLETE document parsed afterwards gives methods %r signals %r properties %r, declared A B / S / P'
+                            % (c, len(xml), got and sorted(got[0].methods), got and sorted(got[0].signals), got and sorted(got[0].properties)))
+            finally:
+                interface.DBusInterface.knownInterfaces.pop(name, None)
+    # a definition known before a failing parse that asked for replacement is not half replaced
+    known = interface.DBusInterface(name, interface.Method('Old', arguments='s'))
+    try:
+        for c in cuts:
+            try:
+                introspection.getInterfacesFromXML(xml[:c], True)
+                continue
+            except Exception:
+                pass
+            now = interface.DBusInterface.knownInterfaces.get(name)
+            if now is not known and (now is None or sorted(now.methods) not in (['A', 'B'],)):
+                return 'a replacing parse that failed (document cut at %d) left the partial definition %r as the known one' % (c, now and sorted(now.methods))
+            interface.DBusInterface.knownInterfaces[name] = known
+    finally:
+        interface.DBusInterface.knownInterfaces.pop(name, None)
+    return None
+
+
 def class_hierarchy_case():
     """objects of a base class and of a class derived from it, each declaring interfaces of its own, introspected in either
     order: every object reports exactly the interfaces of its own class hierarchy"""
@@ -303,6 +345,10 @@ def bounded(tier, seed):
     f = type_code_coverage_case()
     if f:
         return n, f, {'case': 'type code coverage'}
+    n += 1
+    f = failed_parse_case()
+    if f:
+        return n, f, {'case': 'failed parse'}
     n += 1
     f = class_hierarchy_case()
     if f:
